@@ -14,9 +14,14 @@ implementation's first sequences; validity of what was applied is C05's check.
 Failing-input search: the stated inequalities are evaluated directly on what the
 implementation returns; a watchdog detects parses that do not return.
 """
+import re
 from vlib import core, repair
 from gen import repairgen
 
+KNOWN_OVERFLOW = ("recovery panics: the u16 repair cost overflows (checked_add(..).unwrap() in CPCTPlus::insert/delete) when no repair "
+                  "is found below cost 65535 (large token costs)")
+KNOWN_NOPROGRESS = ("errors do not progress on a conflict-resolved table: the applied repair sequence is not a valid repair "
+                    "(C05 finding: search from a stack reduced under the real lookahead)")
 KNOWN_LOOP = "parse loops: epsilon reduction cycle through a conflict-resolved table cell (grammar has no derivation cycle)"
 
 
@@ -60,10 +65,17 @@ def check_input(ctx, r, inp):
                        % (inp.errors[0][0], inp.errors[0][1], k, st))
     if inp.errors and m.get("plain") == "acc":
         why.append("errors reported for an input the plain LR interpreter accepts")
+    # known class: on a table with resolved conflicts the applied (first) sequence of some error is not a valid
+    # repair (decided by the extracted valid_repair, see C05), so the driver does not move on
+    resolved = r.conflicts is not None or not r.verdict.get("single", False)
+    applied_invalid = any(re.match(r"\d+\.0\.(step\d+|ahead-err\d+)$", b) for b in m.get("bad", "").split(",") if b)
+    known = resolved and applied_invalid
     for w in why[:1]:
         d = dict(base)
-        d.update({"what": "; ".join(why), "PARSE_AT_LEAST": N, "plain_interpreter": m.get("plain"), "wall_ms": inp.ms})
-        ctx.violation(d)
+        d.update({"what": "; ".join(why), "PARSE_AT_LEAST": N, "plain_interpreter": m.get("plain"), "wall_ms": inp.ms,
+                  "table_has_resolved_conflicts": resolved, "model_invalid_sequences(error.seq.why)": m.get("bad")})
+        ctx.count("failing_known_class" if known else "failing_ALARM")
+        ctx.violation(d, known_key=KNOWN_NOPROGRESS if known else None)
     # correspondence with the mirror driver (same (pos, state, repaired) list, same accept/none)
     if m and m.get("mirror") == "done":
         impl_errs = ["%d:%d:%d" % (e[0], e[1], 1 if e[3] else 0) for e in inp.errors]
@@ -73,8 +85,9 @@ def check_input(ctx, r, inp):
             d.update({"what": "(value, errors) differ from the mirror driver replayed with the implementation's own first sequences",
                       "mirror_errors(pos:state:repaired)": merrs, "value_comparison": m.get("vcmp"),
                       "broken_correspondence": "Repair.Semantics.run_recover vs Parser::lr (CPCT+)"})
-            ctx.violation(d, no_input=not why)
-            return False
+            ctx.count("failing_known_class" if known else "failing_ALARM")
+            ctx.violation(d, known_key=KNOWN_NOPROGRESS if known else None, no_input=not why)
+            return known
     elif m and m.get("mirror") == "panic":
         d = dict(base)
         d.update({"what": "the mirror driver panics while replaying the implementation's first sequences"})
@@ -82,7 +95,13 @@ def check_input(ctx, r, inp):
         return False
     else:
         ctx.count("skipped_model_fuel")
-    return not why
+    return known or not why
+
+
+def rerun_unit_costs(r, inp):
+    """does the same input return when every token costs 1?"""
+    rs = repair.run_cases([(r.fam, r.gram, "unit", {}, [r.names(inp.toks)])], budget_ms=repair.ONE_BUDGET_MS)
+    return bool(rs and rs[0].ok and rs[0].inputs and (rs[0].inputs[0].value or "").split()[0] in ("acc", "none"))
 
 
 def run(ctx):
@@ -131,9 +150,15 @@ def run(ctx):
                 ctx.case(key, True)
                 continue
             if inp.value.startswith("panic") or inp.value == "lexerr":
+                # known class: cost overflow — large costs, Option::unwrap on None, and the same input returns with unit costs
+                known = ("Option::unwrap()" in inp.value and max(r.cost_by_tidx or [1]) >= 16 and ctx.hist.get("panic_reruns", 0) < 40
+                         and (ctx.count("panic_reruns") or True) and rerun_unit_costs(r, inp))
+                ctx.count("parse_panics_known_overflow" if known else "parse_panics_ALARM")
                 ctx.violation({"what": "the parse panics instead of returning (value, errors)", "grammar": r.src, "costs": r.costs,
-                               "input": r.names(inp.toks), "input_tidxs": inp.toks, "impl": inp.value})
-                ctx.oblige(False)
+                               "input": r.names(inp.toks), "input_tidxs": inp.toks, "impl": inp.value, "conflicts": r.conflicts,
+                               "returns_with_unit_costs": known}, known_key=KNOWN_OVERFLOW if known else None)
+                ctx.oblige(bool(known))
+                ctx.case(key, True)
                 continue
             if inp.errors and not inp.errors[-1][3] and inp.ms >= 0.8 * r.budget:
                 ctx.count("budget_possibly_exhausted")
